@@ -744,6 +744,32 @@ func (w *c15World) shape() string {
 	return fmt.Sprintf("%s|ns%d|keysets%d|trees%d", strings.Join(parts, " "), bound, len(keysets), len(trees))
 }
 
+// shapeFine is the finer abstraction used by the exhaustive unit (small universes): per quota also
+// the number of bound namespaces, whether it carries a tree id, and the key sets of max and min.
+func (w *c15World) shapeFine() string {
+	names := w.names()
+	infos := map[string]c15Info{}
+	nkids := map[string]int{}
+	for _, n := range names {
+		infos[n] = c15Derive(w.shadow[n])
+	}
+	for _, n := range names {
+		nkids[infos[n].parent]++
+	}
+	var parts []string
+	for _, n := range names {
+		d, cur := 0, n
+		for infos[cur].parent != c15Root && d <= len(names) {
+			cur = infos[cur].parent
+			d++
+		}
+		in := infos[n]
+		parts = append(parts, fmt.Sprintf("d%d/p%v/k%d/n%d/t%v/M%v/m%v", d, in.isParent, nkids[n], len(in.nss), in.tree != "", c15KeysOf(in.max), c15KeysOf(in.min)))
+	}
+	sort.Strings(parts)
+	return strings.Join(parts, " ")
+}
+
 func (w *c15World) depth() int {
 	max := 0
 	for _, n := range w.names() {
@@ -867,12 +893,13 @@ func c15CountCreates(u []c15Req) int {
 }
 
 type c15Explorer struct {
-	c     *kit.Case
-	cl    client.Client
-	pods  map[string]string
-	univ  []c15Req
-	stats map[string]int
-	evals int
+	c      *kit.Case
+	cl     client.Client
+	pods   map[string]string
+	univ   []c15Req
+	stats  map[string]int
+	evals  int
+	logged map[string]bool
 }
 
 func (e *c15Explorer) replay(prefix []c15Req, logTo func(string, ...any)) *c15World {
@@ -889,8 +916,12 @@ func (e *c15Explorer) replay(prefix []c15Req, logTo func(string, ...any)) *c15Wo
 	return w
 }
 
+// explore executes every enabled request of the universe after prefix (oracle after each), then
+// extends each non-violating one-step extension recursively. Shorter sequences are checked before
+// longer ones so that the first report of a signature is a shortest one.
 func (e *c15Explorer) explore(prefix []c15Req, depthLeft int) {
 	w := e.replay(prefix, nil)
+	extend := make([]bool, len(e.univ))
 	for i := range e.univ {
 		r := e.univ[i]
 		if !w.enabled(r) {
@@ -900,25 +931,36 @@ func (e *c15Explorer) explore(prefix []c15Req, depthLeft int) {
 		acc, viol := w.request(r, true)
 		e.evals++
 		e.stats[fmt.Sprintf("sequences_len_%d", len(prefix)+1)]++
-		seq := append(append([]c15Req(nil), prefix...), r)
 		if viol != nil {
-			// log the literal sequence with its outcomes, report, and do not extend this sequence
-			e.c.Op("--- violating sequence (%s):", viol.sig)
-			e.replay(seq, e.c.Op)
-			e.c.Report(viol.sig, "%s\nsequence from the empty topology: %s", viol.msg, c15SeqStr(seq))
+			e.report(append(append([]c15Req(nil), prefix...), r), viol)
 			w = e.replay(prefix, nil)
-			continue
+			continue // a violating sequence is not extended
 		}
+		extend[i] = true
 		if acc {
-			e.c.Seen(r.op, w.shape())
-		}
-		if depthLeft > 1 {
-			e.explore(seq, depthLeft-1)
-		}
-		if acc {
+			e.c.Seen(r.op, w.shapeFine())
 			w = e.replay(prefix, nil) // restore the state after the prefix by re-executing it
 		}
 	}
+	if depthLeft <= 1 {
+		return
+	}
+	for i := range e.univ {
+		if extend[i] {
+			e.explore(append(append([]c15Req(nil), prefix...), e.univ[i]), depthLeft-1)
+		}
+	}
+}
+
+// report logs the literal sequence with its outcomes (first occurrence of the signature in this
+// case only) and reports without unwinding, so that the enumeration continues.
+func (e *c15Explorer) report(seq []c15Req, viol *c15Viol) {
+	if !e.logged[viol.sig] {
+		e.logged[viol.sig] = true
+		e.c.Op("--- violating sequence (%s):", viol.sig)
+		e.replay(seq, e.c.Op)
+	}
+	e.c.Report(viol.sig, "%s\nsequence from the empty topology: %s", viol.msg, c15SeqStr(seq))
 }
 
 func c15SeqStr(seq []c15Req) string {
@@ -944,7 +986,7 @@ func TestVerifC15Exhaustive(t *testing.T) {
 		t.Fatalf("fake client: %v", err)
 	}
 	kit.Run(t, kit.Config{Property: "C15", Unit: "exhaustive", Quick: space, Thorough: space, Exhaustive: true,
-		Rule: fmt.Sprintf("exhaustive: every in-domain sequence of create/update/delete requests of length 1..depth (depth 2 in the quick tier, 3 in the thorough tier) from the empty topology, executed on the real quotaTopology, over two reduced universes: A = names {a,b} x parent {root,a,b,missing} x isParent x namespaces {none,[n1]} x tree {none,t1} x (max,min) in 6 cpu pairs (%d objects, %d requests); B = names {a,b,c} x parent {root,a,b,c,missing} x isParent x the 6 pairs (%d objects, %d requests); a labelled pod of quota b exists throughout. One case = one first request (always a create: update/delete need an existing object), the inner sequences are counted as evaluations; distinct = (op, tree shape incl. key sets) after accepted requests; non-trivial = first request accepted", nA, len(c15UnivA), nB, len(c15UnivB))},
+		Rule: fmt.Sprintf("exhaustive: every in-domain sequence of create/update/delete requests of length 1..depth (depth 2 in the quick tier, 3 in the thorough tier) from the empty topology, executed on the real quotaTopology, over two reduced universes: A = names {a,b} x parent {root,a,b,missing} x isParent x namespaces {none,[n1]} x tree {none,t1} x (max,min) in 6 cpu pairs (%d objects, %d requests); B = names {a,b,c} x parent {root,a,b,c,missing} x isParent x the 6 pairs (%d objects, %d requests); a labelled pod of quota b exists throughout. One case = one first request (always a create: update/delete need an existing object), the inner sequences are counted as evaluations; distinct = (op, per-quota depth/parent flag/children/namespaces/tree/key sets) after accepted requests; non-trivial = first request accepted", nA, len(c15UnivA), nB, len(c15UnivB))},
 		func(c *kit.Case) {
 			univ, k := c15UnivA, c.K
 			scope := "A"
@@ -955,19 +997,17 @@ func TestVerifC15Exhaustive(t *testing.T) {
 			if first.op != "create" {
 				c.Harness("case %d does not index a create", c.K)
 			}
-			e := &c15Explorer{c: c, cl: cl, pods: pods, univ: univ, stats: map[string]int{}}
+			e := &c15Explorer{c: c, cl: cl, pods: pods, univ: univ, stats: map[string]int{}, logged: map[string]bool{}}
 			c.Op("scope %s depth %d first request: %s", scope, depth, first.String())
 			w := c15NewWorld(cl, pods, e.stats)
 			acc, viol := w.request(first, true)
 			e.stats["sequences_len_1"]++
 			if viol != nil {
-				c.Op("--- violating sequence (%s):", viol.sig)
-				e.replay([]c15Req{first}, c.Op)
-				c.Report(viol.sig, "%s\nsequence from the empty topology: %s", viol.msg, first.String())
+				e.report([]c15Req{first}, viol)
 			} else {
 				if acc {
 					c.NonTrivial()
-					c.Seen(first.op, w.shape())
+					c.Seen(first.op, w.shapeFine())
 				}
 				if depth > 1 {
 					e.explore([]c15Req{first}, depth-1)
@@ -1187,7 +1227,7 @@ func TestVerifC15Sampled(t *testing.T) {
 	defer c15Gates(t)()
 	cl := c15PodIndexClient()
 	kit.Run(t, kit.Config{Property: "C15", Unit: "sampled", Quick: 25000, Thorough: 400000,
-		Rule: "sampled: histories of 10-40 create/update/delete requests (interleaved with pod creations through ValidateAddPod and pod deletions) on one real quotaTopology over 4 names, parent in names+{root, absent label, missing}, isParent {true,false,absent}, tree {none,t1,t2}, namespaces = subsets of {n1,n2,n3} up to size 2, min/max over {cpu,memory} with each key absent or in {0,1,2,4}; 60% of the objects are proposed coherently with the current tree (parent group's key set, min<=max) and then perturbed, the rest uniformly; updates change 1-2 dimensions of the stored object (parent changes may target the quota itself or its descendants); oracle after every request; distinct = (op, outcome, tree shape incl. key sets) ; non-trivial = case with accepted and rejected requests, a tree of depth >= 2 and an accepted parent change",
+		Rule: "sampled: histories of 10-40 create/update/delete requests (interleaved with pod creations through ValidateAddPod and pod deletions) on one real quotaTopology over 4 names, parent in names+{root, absent label, missing}, isParent {true,false,absent}, tree {none,t1,t2}, namespaces = subsets of {n1,n2,n3} up to size 2, min/max over {cpu,memory} with each key absent or in {0,1,2,4}; 60% of the objects are proposed coherently with the current tree (parent group's key set, min<=max) and then perturbed, the rest uniformly; updates change 1-2 dimensions of the stored object (parent changes may target the quota itself or its descendants); oracle after every request; distinct = (op, outcome, multiset of per-quota depth/parent flag/children, namespace bindings, number of key sets and tree ids); non-trivial = case with accepted and rejected requests, a tree of depth >= 2 and an accepted parent change",
 	}, func(c *kit.Case) {
 		r := c.R
 		stats := map[string]int{}
